@@ -143,3 +143,24 @@ def t_qr():
     both = run([A0, A1])[0]
     report('F-C11-1', numpy.allclose(single, both), 'max diff %.3g' % abs(single-both).max())
 t_qr()
+
+# F-C03-6: eigh pullback exact at order 0 only (H built from the zeroth-order eigenvalue gaps)
+def t_eigh_pb():
+    numpy.random.seed(1); N = 3
+    sym = lambda M: M + M.T
+    A0 = sym(numpy.random.rand(N,N)) + numpy.diag([1.,5.,9.]); A1 = sym(numpy.random.rand(N,N)); A2 = sym(numpy.random.rand(N,N))
+    W = numpy.random.rand(N); V = numpy.random.rand(N,N)
+    def f(A):
+        l,Q = algopy.eigh(A); return algopy.sum(l*W) + algopy.sum(Q*Q*V)
+    def grad_at(A):
+        cg = CGraph(); FA = Function(A); y = f(FA); cg.trace_off()
+        cg.independentFunctionList=[FA]; cg.dependentFunctionList=[y]; return cg.gradient(A)
+    data = numpy.zeros((3,1,N,N)); data[0,0]=A0; data[1,0]=A1; data[2,0]=A2
+    cg = CGraph(); FA = Function(UTPM(data)); y = f(FA); cg.trace_off()
+    cg.independentFunctionList=[FA]; cg.dependentFunctionList=[y]
+    ybar = y.x.zeros_like(); ybar.data[0]=1.; cg.pullback([ybar]); xbar = FA.xbar.data[:,0]
+    h = 1e-3; g = lambda t: grad_at(A0 + A1*t + A2*t*t)
+    g1 = (g(h)-g(-h))/(2*h); sy = lambda M: 0.5*(M+M.T)
+    err = abs(sy(xbar[1])-sy(g1)).max()
+    report('F-C03-6', err < 1e-5, 'order-1 adjoint of eigh vs finite differences of the gradient: err %.2g' % err)
+t_eigh_pb()
